@@ -95,6 +95,48 @@ def run(facts, tier):
     # ---------------- P10.5 an update that yields nothing creates no position (shared with C02 T2.9)
     rules.append(rule_vacant_insert(facts, "P10.5").finish())
 
+    # ---------------- P10.6 an object-valued index is a slice only where `.[k]` reads it as one
+    p6 = Rule("P10.6", "the updater sends an index to the slice updater (`map_range`) only under a test of the *container's* kind (strings and arrays): for an object container an "
+              "object-valued index is a key, as it is for `.[k]` and `has(k)`", floor=1)
+    mi = facts.mir_find(r"^<jaq_json::Val as jaq_core::val::ValT>::map_index$", "jaq_json")
+    if len(mi) != 1:
+        p6.missing_anchor("<Val as ValT>::map_index")
+    else:
+        b = Body(mi[0])
+
+        def assigned(l):
+            return [s_ for bb_ in b.bbs for s_ in bb_["st"] if s_.get("k") == "A" and s_["p"].get("l") == l and not s_["p"].get("pr")]
+
+        def tests_container(sw):
+            """is the discriminant switched on in block sw that of `self` (local 1), looked at field-sensitively through `(&self, index)` tuples"""
+            for s_ in b.bbs[sw]["st"]:
+                if s_.get("k") == "A" and s_["r"].get("k") == "Discr":
+                    x = s_["r"]["p"]["l"]
+                    if 1 in b.ref_roots([x]) and not any(a_["r"].get("k") == "Use" and any(isinstance(q, dict) and "f" in q for q in (((a_["r"]["o"].get("c") or a_["r"]["o"].get("m") or {}).get("pr")) or [])) for a_ in assigned(x)):
+                        return True
+                    for a_ in assigned(x):
+                        o_ = a_["r"].get("o") or {}
+                        pl = o_.get("c") or o_.get("m") or {}
+                        fs = [q["f"] for q in (pl.get("pr") or []) if isinstance(q, dict) and "f" in q]
+                        if a_["r"].get("k") == "Use" and fs and "l" in pl:
+                            for t_ in assigned(pl["l"]):
+                                if t_["r"].get("k") == "Agg" and t_["r"].get("ak") == "Tuple" and fs[0] < len(t_["r"]["ops"]):
+                                    src = t_["r"]["ops"][fs[0]]
+                                    l_ = (src.get("c") or src.get("m") or {}).get("l")
+                                    if l_ is not None and 1 in b.ref_roots([l_]) | {l_}:
+                                        return True
+            return False
+        self_sw = [i for i, bb_ in enumerate(b.bbs) if bb_["t"]["k"] == "Switch" and tests_container(i)]
+        slices = b.find_calls(r"ValT>::map_range$|ValT::map_range$|::map_range$")
+        if not slices:
+            p6.missing_anchor("call of map_range in map_index")
+        for c_ in slices:
+            ok = any(b.controlled_by(c_, sw) for sw in self_sw)
+            p6.examined(("slice-route", b.bbs[c_]["t"]["sp"]), True, {"map_range_at": b.bbs[c_]["t"]["sp"], "under_a_test_of_the_container": ok, "container_tests": len(self_sw)})
+            if not ok:
+                p6.violate("slice-route", "`map_index` hands every object-valued index to the slice updater whatever the container is: `{({\"k\":0}):4} | .[{\"k\":0}] |= .+1` fails although `.[k]` and `has(k)` find the entry", where=b.bbs[c_]["t"]["sp"])
+    rules.append(p6.finish())
+
     explanation = ("Clipping of bounds, negative positions, character boundaries and the contents of spliced results are relations over run-time values: not decided. "
                    "Decided: four structural necessary conditions of the one-position-model statement: readers and updaters position through the same helper per container kind, "
                    "text strings count with one character decoder and byte strings do not decode, `.[k]`/`has`/destructuring share one look-up, and key order is only disturbed by the deleting update.")
